@@ -438,6 +438,11 @@ def run(repo, rep):
     rep.check(not writers, 'C04.T6', 'fsm:StateMachine.transition_table:writers', model.sm.loc(),
               'only the constructor writes the table', '; '.join(writers))
 
+    rep.rule('C04.T7', 'AE-6 chooses between its two alternatives (indicate the request / answer A-ASSOCIATE-RJ and wait in Sta13) as PS3.8 9.3.2 '
+             'says: on bit 0 of the protocol-version field only -- no test in the package compares the whole field with a constant', 1)
+    from ..api_pitfalls import protocol_version_problems as _pvp
+    _pv, _pn = _pvp(repo)
+    rep.check(not _pv, 'C04.T7', 'package:protocol-version-tests', '', '%d test(s) of the protocol version, all on single bits' % _pn, '; '.join(_pv[:3]))
     # T0: all action methods summarised
     import re as _re
     used = sorted(set(model.table.values()) | {m for m in model.sm.methods if _re.match(r'^(ae|dt|ar|aa)_\d+$', m)})
